@@ -33,6 +33,10 @@ impl RequestHandler<PrepareRenameRequest> for PrepareRenameRequestHandler {
             let source_column = params.position.character as usize;
 
             if let Some(source_file) = codegen.tree().files.get(file_path) {
+                if source_line >= source_file.file.num_lines() {
+                    // The client refers to a line that does not exist (any more)
+                    return Ok(None);
+                }
                 let line = source_file.file.source_line(source_line);
 
                 // Try to find the start of identifier under the cursor
